@@ -242,9 +242,16 @@ class World:
 
     def op_delete(self, op):
         o = self.obj(op['o'])
-        if self.H and o._status_ not in DEL and self.E0.h not in o._vals_: raise StaleOp()     # would load the row inside delete
+        if self.H and o._status_ not in DEL:
+            h = o._vals_.get(self.E0.h)            # the required one-to-one: un-linking it inside delete would load rows
+            if h is None or self.H.e not in h._vals_: raise StaleOp()
         err, _ = self.call(o.delete)
-        return {'err': err, 'yields': None, 'mops': [{'k': 'delete', 'o': op['o']}]}
+        res = {'err': err, 'yields': None, 'mops': [{'k': 'delete', 'o': op['o']}]}
+        if err is not None:
+            # delete reads the rows of R that reference the object; a typed reference (R.f -> E1) naming an object of the base
+            # class with read/write bits makes THAT fail (class refinement): relationship code, outside this model
+            res['outside_model'] = True; res['end'] = True
+        return res
 
     def op_flush(self, op):
         cache = self.cache()
@@ -644,9 +651,19 @@ def first_violation(spec, pop_seed, ops):
     out = None
     for i, (op, res, snap, bad) in enumerate(trace):
         if bad:
-            out = (i, bad[0][0], bad[0][1], [t[0] for t in trace[:i + 1]]); break
+            out = (i, classify(op, res, bad[0][0]), bad[0][1], [t[0] for t in trace[:i + 1]]); break
     w.close()
     return out
+
+
+LOADING_CALLS = ('unpickle', 'get', 'select', 'sql', 'load', 'nav', 'prefetch')
+
+def classify(op, res, what):
+    """canonical id of the root cause where it is recognisable: a row load (`_db_set_`) refused with
+    TransactionIntegrityError after it had already moved an index entry (it has no undo list)"""
+    if op['k'] in LOADING_CALLS and res.get('err') == 'TransactionIntegrityError' and what in ('key-index-differs', 'pk-index-differs'):
+        return 'load-conflict-leaves-half-updated-index'
+    return what
 
 
 def shrink(spec, pop_seed, ops, key):
@@ -665,10 +682,11 @@ def report(ctx, spec, pop_seed, ops, key, detail):
     small = shrink(spec, pop_seed, ops, key)
     v = first_violation(spec, pop_seed, small)
     if v is not None: detail = v[2]
+    canon = '%s:%s' % (key, small[-1]['k']) if key == 'load-conflict-leaves-half-updated-index' else '%s:%s:%s' % (key, small[-1]['k'], spec['pk'])
     ctx.violation('after the call the session holds two objects for one key or its key indexes differ from the current values (%s)' % key,
                   {'spec': spec, 'pop_seed': pop_seed, 'ops': small}, observed=detail,
                   expected='one object per primary key; cache.indexes == current key values of the non-deleted objects',
-                  key='%s:%s:%s' % (key, small[-1]['k'], spec['pk']))
+                  key=canon)
 
 
 def compare(ctx, w, spec, pop_seed, trace, steps):
@@ -680,6 +698,8 @@ def compare(ctx, w, spec, pop_seed, trace, steps):
         if not m['inv']: ctx.count('model:inv-false')
         if merr in ('BadOp', 'NeedLoad'):
             ctx.divergence('the model rejected a call the engine generated', hist(i), model=merr, impl=rerr); return
+        if res.get('outside_model'):
+            ctx.count('call-failed-outside-the-model:%s:%s' % (op['k'], rerr)); return
         if res.get('db_refused'):
             ctx.count('flush:refused-by-the-database:' + str(rerr))
             merr = rerr                       # the database refusing a statement is an input of this model, not a prediction
@@ -720,6 +740,13 @@ def compare(ctx, w, spec, pop_seed, trace, steps):
 
 
 def histories(ctx, rng, nhist, nops):
+    done = 0
+    while done < nhist:                       # in chunks: traces hold a snapshot per call
+        n = min(250, nhist - done); done += n
+        histories_chunk(ctx, rng, n, nops)
+
+
+def histories_chunk(ctx, rng, nhist, nops):
     batch = []
     for h in range(nhist):
         spec = gen_spec(rng)
@@ -738,7 +765,7 @@ def histories(ctx, rng, nhist, nops):
             if res.get('side_seeds'): ctx.count('side-effect-seeds:' + op['k'], res['side_seeds'])
             if bad:
                 ctx.count('oracle:' + bad[0][0])
-                report(ctx, spec, pop_seed, [t[0] for t in trace], bad[0][0], bad[0][1])
+                report(ctx, spec, pop_seed, [t[0] for t in trace], classify(op, res, bad[0][0]), bad[0][1])
         batch.append((w, spec, pop_seed, trace))
         w.close()
     if not ctx.driver.ok:
@@ -772,6 +799,10 @@ DIRECTED = [
     ('unpickle-after-delete', _spec(1, [True]),
      [{'k': 'create', 'cls': 0, 'kw': {'id': 1, 'a0': 5}}, {'k': 'flush'}, {'k': 'pickle', 'o': 0}, {'k': 'delete', 'o': 0}, {'k': 'flush'},
       {'k': 'create', 'cls': 0, 'kw': {'id': 2, 'a0': 5}}, {'k': 'unpickle', 'd': 0}, {'k': 'create', 'cls': 0, 'kw': {'id': 1}}]),
+    # a stale pickle whose unique value was taken meanwhile: pickle.loads is refused (fine) but `_db_set_` has no undo list
+    ('stale-unpickle-conflict', _spec(2, [True, True]),
+     [{'k': 'create', 'cls': 0, 'kw': {'id': 1, 'a0': 3, 'a1': 1}}, {'k': 'flush'}, {'k': 'pickle', 'o': 0}, {'k': 'delete', 'o': 0}, {'k': 'flush'},
+      {'k': 'create', 'cls': 0, 'kw': {'id': 2, 'a1': 1}}, {'k': 'unpickle', 'd': 0}]),
     # a unique value handed from one object to another; a composite key completed from None; delete frees both
     ('move-values', _spec(3, [True, False, False], ckeys=[[1, 2]]),
      [{'k': 'create', 'cls': 0, 'kw': {'id': 1, 'a0': 5, 'a1': 1}}, {'k': 'create', 'cls': 0, 'kw': {'id': 2, 'a0': 6, 'a1': 1, 'a2': 2}},
@@ -788,7 +819,7 @@ def directed(ctx):
         ctx.case({'directed': name}, nontrivial=True, kind='directed')
         for op, res, snap, bad in trace:
             ctx.count('directed:%s:%s:%s' % (name, op['k'], res['err'] or 'ok'))
-            if bad: report(ctx, spec, None, [t[0] for t in trace], bad[0][0], bad[0][1])
+            if bad: report(ctx, spec, None, [t[0] for t in trace], classify(op, res, bad[0][0]), bad[0][1])
         batch.append((w, spec, None, trace)); w.close()
     if ctx.driver.ok:
         outs = ctx.driver('C11', [{'op': 'run', 'schema': w.model_schema, 'groups': [t[1]['mops'] for t in trace]} for w, _, _, trace in batch])
